@@ -357,7 +357,7 @@ def same_iterate(ck, s, o, p, x0, cfg, extra, eg, sc):
 
 def _case(ck, i):
     r = i % 16
-    u = int(ck.rng().integers(0, ck.pick(1, 10)))
+    u = int(ck.rng().integers(0, ck.pick(1, 6)))
     pool = [LAYS[(3 * r + k) % len(LAYS)] for k in range(2)]
     s = draw_structure(ck.rng(100000 + r, u), pool, r)
     rng = ck.rng(i, 1)
